@@ -356,12 +356,25 @@ func recordDist(n int, seed int64) {
 		w.close()
 		rec.Log(rt.Event{"ev": "ret", "id": id, "res": "done"})
 		ok = ok && quiet()
-		sw.Wait() // nothing blocks on a closed Queue / Deque
-		mu.Lock()
-		for _, c := range cancels {
-			c()
+		// nothing blocks on a closed Queue / Deque; should a call hang all the same it is released by its context
+		// (it was reported as blocked at the quiescent point above)
+		done := make(chan struct{})
+		go func() { sw.Wait(); close(done) }()
+		for finished := false; !finished; {
+			select {
+			case <-done:
+				finished = true
+			default:
+				mu.Lock()
+				for k, c := range cancels {
+					rec.Log(rt.Event{"ev": "cancel", "id": k})
+					c()
+					delete(cancels, k)
+				}
+				mu.Unlock()
+				runtime.Gosched()
+			}
 		}
-		mu.Unlock()
 		if ok {
 			rt.Emit(map[string]any{"hist": append(hist, rec.Events()...)})
 		} else {
